@@ -25,7 +25,10 @@ def run(ck):
     c06.run_syntax(ck, "tree-positions")
     # (c) run-time error positions: script name + a position inside the statement at fault, for every chain entry
     progs = [p for p in gen.gen_use(q, ck.seed) if ":fail" in p["id"] or p["id"].startswith("use:first")]
-    progs += [p for p in gen.gen_hostile(True, ck.seed)][: (300 if q else 3000)]
+    # run-time faults of every hostile-operand kind: a spread over the whole family (not its head), and every program whose fault sits at a
+    # slice bound next to an OMITTED bound (the position must be the faulting operand's, there is no neighbour to borrow one from)
+    hostile = gen.gen_hostile(True, ck.seed)
+    progs += hostile[:: (6 if q else 1)] + [p for p in hostile if any(x in p["scripts"]["main.p"] for x in ("[:", "::", ":]"))][: (400 if q else 4000)]
     machine.run_family(ck, "error-positions", progs)
     # (e) load-time link errors: the root cause and every use() call site on the way out, for all script sets of the Loader spec
     scripts, mc = ('{"a","b","c"}', 2)
